@@ -43,6 +43,8 @@ pub enum FailClass {
     AuthZoneEmpty,
     NoBaseProofs,
     KindMismatch,
+    NotBurnable,
+    FaucetTwice,
 }
 
 impl FailClass {
@@ -129,6 +131,7 @@ pub struct Model {
     /// coverage notes: interesting situations the run went through
     pub notes: BTreeSet<&'static str>,
     pub max_overlap: usize,
+    pub faucet_free_used: bool,
 }
 
 fn dec(d: &Decimal) -> BigInt {
@@ -153,6 +156,7 @@ impl Model {
             proofs_created: 0,
             notes: BTreeSet::new(),
             max_overlap: 0,
+            faucet_free_used: false,
         };
         for ((a, r), h) in holdings {
             m.containers.push(Container { res: *r, hold: h.clone(), locks: BTreeMap::new(), vault_of: Some(*a) });
@@ -488,6 +492,15 @@ impl Model {
                 self.check_next_call(&vec![])?;
                 Ok(())
             }
+            Ins::FaucetFree => {
+                if self.faucet_free_used {
+                    return Err(Fail(FailClass::FaucetTwice));
+                }
+                self.faucet_free_used = true;
+                let xrd = self.res.iter().position(|r| r.name == "XRD").expect("XRD is part of the world");
+                self.notes.insert("resources-from-an-unknown-component");
+                self.call_returns(vec![Holding::F(BigInt::from(10_000u32) * one())], xrd)
+            }
             Ins::Withdraw { acct, res, amount } => {
                 self.need_sigs()?;
                 let v = self.vaults[&(*acct, *res)];
@@ -631,6 +644,9 @@ impl Model {
             }
             Ins::Burn { bucket } => {
                 let c = self.take_bucket(*bucket)?;
+                if !self.res[self.containers[c].res].burnable {
+                    return Err(Fail(FailClass::NotBurnable));
+                }
                 let _ = self.consume_container(c)?;
                 self.check_next_call(&vec![])
             }
